@@ -23,7 +23,7 @@ RULE = ("doctests of 1..8 statements from {emit (prints), an expression printing
         "alone, after other output, or together with a returned value}; after a statement a want is placed with p=0.55 in one of the forms "
         "A/B/C that applies; statements without wants are split into several parts by prose/blank lines so the "
         "accumulation buffer holds 1..4 entries; in half of the cases exactly one want is corrupted (replace, append, "
-        "prepend, drop-last, stale = the output already consumed by the previous want prepended; noellipsis = the tail of the correct text replaced by '...' while an inline -ELLIPSIS switches the wildcard off; the previous want may be one "
+        "prepend, drop-last, stale = the output already consumed by the previous want prepended; stalevalue = the repr of an earlier expression's value under a statement without a value; noellipsis = the tail of the correct text replaced by '...' while an inline -ELLIPSIS switches the wildcard off; the previous want may be one "
         "switched off by an inline +IGNORE_WANT) and the remaining statements follow it.  Plus doctests in which nothing can run (comment "
         "only, all under +SKIP, google block without prompts).  Non-trivial = at least one want placed; distinct by "
         "docstring hash")
@@ -36,7 +36,8 @@ ASSUMPTIONS = [
 ]
 NSHARDS = {'quick': 16, 'thorough': 16}
 FORMS = 'ABC'
-CORRUPTIONS = ['replace', 'append', 'prepend', 'drop', 'stale', 'stale', 'noellipsis', 'noellipsis']
+CORRUPTIONS = ['replace', 'append', 'prepend', 'drop', 'stale', 'stale', 'noellipsis', 'noellipsis', 'stalevalue',
+               'stalevalue']
 
 
 def required_cells(tier):
@@ -46,9 +47,13 @@ def required_cells(tier):
         for c in CORRUPTIONS:
             if f == 'C' and c == 'drop':
                 continue        # a repr is one line
+            if f == 'B' and c == 'drop':
+                continue        # rare (the final statement must print two lines): counted when it happens, not required
             if c == 'stale' and f != 'A':
                 continue
             if c == 'noellipsis' and f == 'B':
+                continue
+            if c == 'stalevalue' and f != 'A':
                 continue
             cells.append('corrupt:%s:%s' % (f, c))
     cells += ['depth:1', 'depth:2', 'depth:3', 'nothing-ran:comment-only', 'nothing-ran:skip-block',
@@ -57,7 +62,7 @@ def required_cells(tier):
 
 
 KINDS = ['emit', 'emit', 'twice', 'twice', 'val', 'pv', 'pv', 'assign', 'for', 'multi', 'valml', 'semi', 'semival', 'quiet',
-         'blankout', 'wsout', 'emitblank', 'pvblank', 'aval', 'apv', 'acomp', 'coro_obj', 'noeol', 'noeol']
+         'blankout', 'wsout', 'emitblank', 'pvblank', 'aval', 'apv', 'acomp', 'coro_obj', 'noeol', 'noeol', 'assignprint', 'assignprint']
 
 
 def out_to_want(text):
@@ -103,6 +108,9 @@ def gen_program(rng):
             S.append(St(['await apv(%d)' % k], kind, k, is_expr=True))
         elif kind == 'acomp':
             S.append(St(['[x async for x in agen(%d)]' % k], kind, k, is_expr=True))
+        elif kind == 'assignprint':
+            # a statement that prints but has no value of its own
+            S.append(St(['y%d = emit(%d)' % (k, k)], kind, k))
         elif kind == 'noeol':
             # output without a trailing newline: what the next statement prints continues the same line
             S.append(St(['print("n%d", end=quiet(%d) or "")' % (k, k)], kind, k, is_expr=True))
@@ -147,6 +155,7 @@ def plan_wants(rng, S, ref, corrupt):
     corrupt_at = rng.randrange(len(S)) if corrupt else None
     seps = {}
     blank_wants = []
+    last_value = None       # repr of the value of the most recent expression that was checked against a want
     stale = []              # want lines spelling the output that the previous want has already consumed
     prev_ignored = False    # the previous want was switched off by an inline +IGNORE_WANT
     for idx, st in enumerate(S):
@@ -178,10 +187,19 @@ def plan_wants(rng, S, ref, corrupt):
                     c = 'replace'
                 if c == 'stale' and not any(w != '<BLANKLINE>' for w in stale):
                     c = 'replace'
-                if c == 'noellipsis' and not (len(st.lines) == 1 and len(wl) == 1 and len(wl[0]) >= 3 and
+                if (not st.is_expr) and last_value is not None and rng.random() < 0.6:
+                    c = 'stalevalue'
+                if c == 'stalevalue' and (st.is_expr or last_value is None):
+                    c = 'replace'
+                if c == 'stalevalue':
+                    # the repr of an EARLIER expression's value under a statement that has no value of its own
+                    wl = [last_value]
+                elif c == 'noellipsis' and not (len(st.lines) == 1 and len(wl) == 1 and len(wl[0]) >= 3 and
                                               '...' not in wl[0] and '#' not in st.lines[0]):
                     c = 'replace'
-                if c == 'noellipsis':
+                if c == 'stalevalue':
+                    pass
+                elif c == 'noellipsis':
                     # the correct text with its tail replaced by '...', and the wildcard switched off for this
                     # statement: the dots are literal, the want is wrong (whatever is compared with it: the output,
                     # the final statement's output or the repr of its value)
@@ -213,6 +231,8 @@ def plan_wants(rng, S, ref, corrupt):
                 prev_ignored = True
             wants[idx] = wl
             placed.append((idx, tag, depth if tag == 'A' else 1))
+            if st.is_expr and value_repr(st, ref, idx) is not None and tag != 'I':
+                last_value = value_repr(st, ref, idx)
             stale = out_to_want(acc)
             acc = ''
             depth = 1
